@@ -408,8 +408,10 @@ class Session(BaseSession):
     async def _describe_middleware(self, q: Query) -> AllowedResult:
         """Intercept DESCRIBE statements"""
         if isinstance(q.expression, exp.Describe):
-            if isinstance(q.expression.this, exp.Select):
-                # Mysql parse treats EXPLAIN SELECT as a DESCRIBE SELECT statement
+            if not isinstance(q.expression.this, exp.Table):
+                # Mysql parse treats EXPLAIN SELECT as a DESCRIBE SELECT statement:
+                # whatever is explained that is not a table (a SELECT, a UNION, a
+                # parenthesised query, DML) is a statement of the application's
                 return await q.next()
             # Keep the database qualifier (and the quoting) of DESCRIBE db.tbl
             table = q.expression.this.sql(dialect=self.dialect)
